@@ -264,6 +264,15 @@ def step (st : St) (line : String) : St × String :=
         | none => (st, "no-chain")
       | .error _ => (st, "no-startxref")
     | none => (st, "bad-op")
+  | ["q.tablelists", k, subs] =>
+    -- hypothesis of C02_table_lists for (sub-)revision k of the written file and the subsections of its table
+    match k.toNat?, (if subs == "-" then some [] else (subs.splitOn ";").mapM parseSub) with
+    | some k, some subs =>
+      let f : WFile := ⟨0, st.wobjs, st.wtrs⟩
+      (st, match f.ents[k]? with
+        | some ents => toString (sameAssocB (flatSubs subs) (entsInt ents))
+        | none => "no-such-revision")
+    | _, _ => (st, "bad-op")
   | ["q.tail", ts, eol, w, n] =>
     let eol? : Option LineEol := if eol == "lf" then some .lf else if eol == "crlf" then some .crlf else if eol == "cr" then some .cr else none
     let ts? : Option TailStyle := if ts == "normal" then some .plain else if ts == "noeol" then some .noeol
